@@ -8,7 +8,7 @@ LEAN_MODULES = ["ViaProofs.C14"]
 LEMMA_MODULES = ['ViaProofs.ConnLemmas', 'ViaProofs.Trans.RQ', 'ViaProofs.Trans.RR', 'ViaProofs.Trans.MHA', 'ViaProofs.Trans.RQP', 'ViaProofs.Trans.ENC']
 REQUIRED_THEOREMS = ['Via.C14_head', 'Via.C14_next_request']
 LEVEL = "proof"
-LEVEL_TEXT = ("PROOF (step level) that for a HEAD request both body-carrying overloads write exactly the head the GET twin gets, and that clear() resets the flag; on the real templates the stream is walked response by response: nothing may follow a HEAD head and its Content-Length is the GET twin's. Known finding C14-KF1 (late responses).")
+LEVEL_TEXT = ("PROOF (step level) that for a HEAD request both body-carrying overloads write exactly the head the GET twin gets, and that clear() resets the flag; on the real templates the stream is walked response by response: nothing may follow a HEAD head and its Content-Length is the GET twin's. is_head() and the receiver's HEAD handling are translated (Trans/RQP, Trans/RR). Known finding C14-KF1 (late responses).")
 TRUSTED_BASE = S.SIM_TRUSTED
 ASSUMPTIONS = S.SIM_ASSUMPTIONS
 compare = S.compare
